@@ -116,6 +116,10 @@ fn main() {
             std::process::exit(2);
         }
     };
+    let mut report = report;
+    if ctx.tier == Tier::Thorough && ctx.only_case.is_none() && ctx.shard.is_none() && std::env::var("VERIF_LEG").is_err() && std::env::var("VERIF_PARTIAL").is_err() {
+        legs::coverage_leg(&ctx, &mut report);
+    }
     if let Ok(partial) = std::env::var("VERIF_PARTIAL") {
         // child of a sharded run: hand the accumulators to the parent, no verdict here
         let mut v = report.local.to_json();
